@@ -4,6 +4,5 @@ set -e
 cd "$(dirname "$0")"
 export GOFLAGS=-mod=mod GOPROXY=off GOSUMDB=off GOTOOLCHAIN=local
 mkdir -p build/bin evidence replays
-cp -f /repo/go.sum go.sum.repo 2>/dev/null || true
 go build -o build/bin/vgen ./cmd/vgen
 echo setup ok
